@@ -19,6 +19,7 @@ package resilience
 
 import (
 	"context"
+	"fmt"
 	"math/rand"
 	"time"
 )
@@ -50,7 +51,11 @@ type RetryPolicy struct {
 
 // Validate validates the retry policy.
 func (p *RetryPolicy) Validate() error {
-	// TODO
+	// the 'minimum=0' tag is not effective: the schema generator drops a
+	// bound which is the zero value.
+	if p.RandomizationFactor < 0 || p.RandomizationFactor > 1 {
+		return fmt.Errorf("randomizationFactor must be between 0 and 1")
+	}
 	return nil
 }
 
